@@ -56,8 +56,75 @@ def load_prop(prop: str):
 # worker side
 # --------------------------------------------------------------------------
 
+RUN_CPU_CAP_S = 400          # user-CPU seconds one run may burn in this process; no run on the unchanged tree needs a twentieth of it
+
+
+class RunCpuCapExceeded(BaseException):
+    """Raised by the ITIMER_VIRTUAL handler: the run is burning CPU without finishing (a loop whose single iterations are
+    expensive C calls escapes the logical step clock, e.g. a bytes object that grows on every pass)."""
+
+
+def _on_cpu_cap(signum, frame):
+    raise RunCpuCapExceeded()
+
+
+def _guarded_run(mod, prop: str, scenario: dict):
+    """mod.run(scenario) with the classification rules of DESIGN 10.2: a failing clean arm, a tool exception that reaches the
+    harness where the unchanged tree never raises, an exhausted step budget or CPU cap are the tool's behaviour (violations);
+    everything else propagates as a harness error."""
+    import signal
+    from sim.core import CleanArmFailed, RunResult
+    from sim.seams import StepBudgetExceeded, StepClock
+    timer = False
+    try:
+        signal.signal(signal.SIGVTALRM, _on_cpu_cap)
+        cap = getattr(mod, "RUN_CPU_CAP_S", RUN_CPU_CAP_S)
+        signal.setitimer(signal.ITIMER_VIRTUAL, cap)
+        timer = True
+    except ValueError:          # not in the main thread
+        pass
+    try:
+        try:
+            return mod.run(scenario)
+        finally:
+            if timer:
+                signal.setitimer(signal.ITIMER_VIRTUAL, 0)
+    except CleanArmFailed as e:
+        res = RunResult()
+        res.add(prop, "clean_arm_failed", "the fault-free arm failed, nothing to compare against: %s" % e)
+        res.digest = "clean_arm_failed"
+        return res
+    except StepBudgetExceeded as e:
+        StepClock.acknowledge()
+        res = RunResult()
+        res.add(prop, "no_result", "the tool exceeded the logical step budget (%s steps) at a point where the harness sets a budget far above "
+                                   "what the unchanged tree needs" % (e.args[0] if e.args else "?"))
+        res.digest = "no_result"
+        return res
+    except RunCpuCapExceeded:
+        StepClock.acknowledge()
+        res = RunResult()
+        res.add(prop, "no_result", "the run burned more than %d s of CPU without finishing (the unchanged tree needs a small fraction of that)"
+                % getattr(mod, "RUN_CPU_CAP_S", RUN_CPU_CAP_S))
+        res.digest = "no_result_cpu"
+        return res
+    except Exception as e:      # noqa: BLE001
+        # an exception raised INSIDE the tool that reached the harness at a point where the unchanged tree never
+        # raises (constructing a view, a filter, a client ...) is the tool's behaviour, not a harness defect
+        tb = traceback.extract_tb(e.__traceback__)
+        repo_real = os.path.realpath(REPO) + os.sep
+        inner = [f for f in tb if os.path.realpath(f.filename).startswith(repo_real)]
+        if not inner or os.path.realpath(tb[-1].filename).startswith(os.path.realpath(VERIF) + os.sep):
+            raise
+        res = RunResult()
+        res.add(prop, "unexpected_tool_exception", "%s: %s raised at %s:%d (%s), where the unchanged tree never raises" % (
+            type(e).__name__, str(e)[:160], os.path.relpath(inner[-1].filename, repo_real), inner[-1].lineno, inner[-1].name), exc=type(e).__name__)
+        res.digest = "unexpected_tool_exception"
+        return res
+
+
 def _run_indices(prop: str, base_seed: int, tier: str, indices: List[int], want_samples: int):
-    from sim.core import rng_for, derive_seed, CleanArmFailed, RunResult
+    from sim.core import rng_for, derive_seed
     mod = load_prop(prop)
     import sim.core as _core
     _core.CURRENT_BASE_SEED = base_seed
@@ -66,31 +133,14 @@ def _run_indices(prop: str, base_seed: int, tier: str, indices: List[int], want_
         try:
             rng = rng_for(base_seed, prop, idx)
             scenario = mod.gen(rng, tier, idx)
-            try:
-                res = mod.run(scenario)
-            except CleanArmFailed as e:
-                res = RunResult()
-                res.add(prop, "clean_arm_failed", "the fault-free arm failed, nothing to compare against: %s" % e)
-                res.digest = "clean_arm_failed"
-            except Exception as e:      # noqa: BLE001
-                # an exception raised INSIDE the tool that reached the harness at a point where the unchanged tree never
-                # raises (constructing a view, a filter, a client ...) is the tool's behaviour, not a harness defect
-                tb = traceback.extract_tb(e.__traceback__)
-                repo_real = os.path.realpath(REPO) + os.sep
-                inner = [f for f in tb if os.path.realpath(f.filename).startswith(repo_real)]
-                if not inner or os.path.realpath(tb[-1].filename).startswith(os.path.realpath(VERIF) + os.sep):
-                    raise
-                res = RunResult()
-                res.add(prop, "unexpected_tool_exception", "%s: %s raised at %s:%d (%s), where the unchanged tree never raises" % (
-                    type(e).__name__, str(e)[:160], os.path.relpath(inner[-1].filename, repo_real), inner[-1].lineno, inner[-1].name), exc=type(e).__name__)
-                res.digest = "unexpected_tool_exception"
+            res = _guarded_run(mod, prop, scenario)
             w = res.to_wire()
             w["idx"] = idx
             w["seed"] = derive_seed(base_seed, prop, idx)
             if res.violations or idx < want_samples:
                 w["scenario"] = scenario
             out.append(w)
-        except BaseException:        # noqa: BLE001 - includes StepBudgetExceeded leaking from oracles
+        except BaseException:        # noqa: BLE001
             out.append({"idx": idx, "harness_error": traceback.format_exc()})
     return out
 
@@ -145,14 +195,8 @@ def repo_dirty() -> bool:
 
 
 def run_scenario_once(prop: str, scenario: dict):
-    from sim.core import CleanArmFailed, RunResult
     mod = load_prop(prop)
-    try:
-        return mod.run(scenario)
-    except CleanArmFailed as e:
-        res = RunResult()
-        res.add(prop, "clean_arm_failed", "the fault-free arm failed, nothing to compare against: %s" % e)
-        return res
+    return _guarded_run(mod, prop, scenario)
 
 
 def replay_main(prop: str, path: str) -> int:
